@@ -1,2 +1,19 @@
+from replay_common import *
+
+
 def prepare(rp, ce, params):
-    return None, "4096-entry repeat stack is not replayed"
+    """depth nested count-down repeat scopes opened by a real program, then the Repeat of the model (n, direction)"""
+    m = ce.get("model") or {}
+    depth = [4095, 4096][trace_val(ce, "depth")]
+    n = sw(m.get("n", 1)); up = trace_val(ce, "up")
+    ops = ["Stack::Push:1", "Stack::Push:0", "Stack::Repeat:0"] * depth + [f"Stack::Push:{n}", f"Stack::Push:{up}", "Stack::Repeat:0"]
+    fields = dict(kind="vm_prog", ops=";".join(ops), stack="", memory="", costs="", default_cost="0", kind_costs="")
+
+    def judge(out):
+        if "panic" in out: return True, "real code panics: " + out["panic"][:200]
+        want_ok = depth < 4096
+        got_ok = out.get("result") == "ok"
+        if got_ok != want_ok: return True, f"Repeat with {depth} open scopes: real {out.get('result')} {out.get('err', '')[:80]}, the limit of 4096 entries requires {'ok' if want_ok else 'an error'}"
+        if not got_ok and out.get("err_index") != str(3 * depth + 2): return True, f"error reported at op {out.get('err_index')}, expected {3 * depth + 2}"
+        return False, f"real: {out.get('result')} as the limit requires"
+    return fields, judge
